@@ -55,6 +55,18 @@ func vRandIntn(n int) int {
 	return n - 1
 }
 
+// vRandFloat64 replaces math/rand.Float64: the smallest, a middle and (nearly) the largest value
+// of [0,1).
+func vRandFloat64() float64 {
+	switch verifChoose("randFloat", 3) {
+	case 0:
+		return 0
+	case 1:
+		return 0.5
+	}
+	return 0.9999999
+}
+
 var errAttempt = errors.New("attempt failed")
 
 // vSchemaInt reads a numeric jsonschema constraint (minimum / maximum) from the struct tag of a
